@@ -134,6 +134,17 @@ func (f *frame) applyCall(c *ssa.CallCommon, v ssa.Value, pos token.Pos, deferre
 	f.recordCallThrow(key, pos)
 	w := e.E.writeSet(callee)
 	f.havocKeys(w)
+	// interior addresses handed to the callee (&p.f, &s[i], &global) may be written through
+	for i, a := range args {
+		if a.loc != nil && a.loc.kind != locCell {
+			if pt, ok := c.Args[i].Type().Underlying().(*types.Pointer); ok {
+				n, inv := e.havoc(base+"!addr", pt.Elem())
+				f.wrote("write through address argument")
+				f.storeLoc(a.loc, n, f.curHeap)
+				f.assume(inv)
+			}
+		}
+	}
 	e.note("callee without contract: " + key + " (result havocked, inferred write set havocked)")
 	return f.resultHavoc(base, resT)
 }
@@ -226,11 +237,27 @@ func bindResults(bind map[string]SV, fn *ssa.Function, res SV) {
 func (f *frame) contractCall(callee *ssa.Function, fc *FuncContract, args []SV, base string, resT types.Type, pos token.Pos) SV {
 	e := f.enc
 	key := fc.Key
-	for _, a := range args {
-		if a.loc != nil {
-			bail("address argument to %s", key)
+	var addrArgs []*Loc
+	var addrTypes []types.Type
+	for i, a := range args {
+		if a.loc != nil && a.loc.kind != locCell {
+			// interior address: the contract cannot name its target; the callee may write it
+			addrArgs = append(addrArgs, a.loc)
+			addrTypes = append(addrTypes, callee.Params[i].Type().Underlying().(*types.Pointer).Elem())
+			n, _ := e.havoc(base+"!aref", types.Typ[types.UnsafePointer])
+			args[i] = SV{t: a.t, term: n}
+		} else if a.loc != nil {
+			args[i] = SV{t: a.t, term: a.loc.base}
 		}
 	}
+	defer func() {
+		for i, l := range addrArgs {
+			n, inv := e.havoc(base+"!addr", addrTypes[i])
+			f.wrote("write through address argument")
+			f.storeLoc(l, n, f.curHeap)
+			f.assume(inv)
+		}
+	}()
 	bind := f.calleeBind(callee, args)
 	pkg := callee.Pkg.Pkg
 	text := e.srcText(f.fn, pos, "call")
@@ -687,8 +714,37 @@ func (E *Engine) callWrites(c *ssa.CallCommon, w map[string]bool) {
 		}
 		return
 	}
-	if fc := E.CS.Funcs[funcKey(callee)]; fc != nil && fc.Pure {
-		return
+	if fc := E.CS.Funcs[funcKey(callee)]; fc != nil {
+		if fc.Pure && !fc.HasModifies {
+			return
+		}
+		if fc.HasModifies {
+			// the callee's own modifies clause (checked when the callee is verified)
+			tmp := &FnEnc{E: E, R: scratchReg}
+			for _, m := range fc.Modifies {
+				if m == "*" {
+					w["*"] = true
+					continue
+				}
+				if ks, ok := tmp.modifiesSpecial(m, callee.Pkg.Pkg); ok {
+					for _, k := range ks {
+						w[k] = true
+					}
+					continue
+				}
+				parts := strings.SplitN(m, ".", 2)
+				if tn, ok := callee.Pkg.Pkg.Scope().Lookup(parts[0]).(*types.TypeName); ok && len(parts) == 2 {
+					if st, ok := tn.Type().Underlying().(*types.Struct); ok {
+						for i := 0; i < st.NumFields(); i++ {
+							if st.Field(i).Name() == parts[1] || parts[1] == "*" {
+								w[fieldKeyOf(tn.Type(), i)] = true
+							}
+						}
+					}
+				}
+			}
+			return
+		}
 	}
 	for k := range E.writeSet(callee) {
 		w[k] = true
@@ -833,6 +889,11 @@ func (e *FnEnc) modifiesSpecial(m string, pkg *types.Package) ([]string, bool) {
 	case strings.HasPrefix(m, "elems(") && strings.HasSuffix(m, ")"):
 		t := c.resolveType(m[6 : len(m)-1])
 		k, s := e.elemHeapKey(t)
+		e.R.heapConst(k, s)
+		return []string{k}, true
+	case strings.HasPrefix(m, "cell(") && strings.HasSuffix(m, ")"):
+		t := c.resolveType(m[5 : len(m)-1])
+		k, s := e.cellHeapKey(t)
 		e.R.heapConst(k, s)
 		return []string{k}, true
 	case strings.HasPrefix(m, "map(") && strings.HasSuffix(m, ")"):
